@@ -55,6 +55,12 @@ claim("C15", "The AKAI mono stack (C01), the AKAI stereo pair through the real P
       "position and lies below the cut (no padding, no foreign bytes), and a sample whose sectors all lie below the cut is complete; partition scan keeps "
       "the partitions before the first unparsable header.", XT, "DESIGN.md 2/C15")
 
+claim("C02", "For each of the 7 loop modes (and an out-of-table mode byte) the real SampleFile.to_generalized is run over RolandFile(symbolic cluster pair) over the "
+      "data-area window over an abstract file and drained by the real encoder; z3 shows the PCM is words start..endpoint(mode) of the chain, reversed for "
+      "modes 5/6, incl. data ending exactly on a cluster boundary. FAT decoding / get_file(cluster_top) share C07's obligations; the Pointer address "
+      "lambdas and index validators of all five entry kinds, the entry adapter's FAT request, loop-point splitting, sample collection and frequency codes "
+      "are separate obligations.", XT + " (NpShim for reversal)", "DESIGN.md 2/C02")
+
 _pending = "check not built yet in this session (work in progress; see DESIGN.md section 2 for the planned obligations)"
 for _p in ["C01","C02","C03","C04","C05","C06","C07","C09","C10","C11","C12","C13","C14","C15","C16","C17","C18","C19","C20"]:
     if _p not in CHECKS:
